@@ -1,6 +1,6 @@
 (* Every route handler, event hook and middleware of the library, written in the handler
    monad so that each definition reads like its Go original (anchor in the comment). *)
-From AB Require Export World.Monad Model.Rules Base.Text.
+From AB Require Export World.Monad Model.Rules Model.Lock Model.Redirect Base.Text.
 Open Scope Z_scope.
 
 (* ---- names ---------------------------------------------------------------- *)
@@ -52,18 +52,33 @@ Definition p_register_ok := bs "/ok/register".
 Definition p_2fa_email_notok := bs "/no/2fa-email".
 Definition root_url := bs "http://site.test".
 
-Definition zero_time : Z := -62135596800.     (* time.Time{} in unix seconds *)
+Definition zero_time : Z := zero_instant.     (* time.Time{} in unix seconds *)
 
 Record redirect_opts := mkRO { ro_path : bytes; ro_follow : bool; ro_success : bool; ro_failure : bool }.
 
 Inductive herr_ext := HRateLimit | HBadPhone | HErr (e : herr).
 
+(* everything a handler reads but cannot change: one argument, so that every handler has
+   the same shape [env -> ... -> M _] *)
+Record env := mkEnv {
+  e_C : crypto;
+  e_cfg : config;
+  e_O : oracle;
+  e_req : request;
+  e_cook : amap;      (* cookies read at request start *)
+  e_sess : amap       (* session as the handler sees it (possibly hidden by expire) *)
+}.
+Definition with_sess (E : env) (s : amap) : env :=
+  mkEnv (e_C E) (e_cfg E) (e_O E) (e_req E) (e_cook E) s.
+
 Section H.
-Variable C : crypto.
-Variable cfg : config.
-Variable O : oracle.
-Variable req : request.
-Variable cook : amap.       (* cookies read at request start *)
+Variable E : env.
+Notation C := (e_C E).
+Notation cfg := (e_cfg E).
+Notation O := (e_O E).
+Notation req := (e_req E).
+Notation cook := (e_cook E).
+Notation sess := (e_sess E).
 
 Notation now := (o_now O).
 Notation backend := (backend O).
@@ -95,9 +110,7 @@ Definition respond (page : bytes) (data : list (bytes * dval)) : M unit :=
   render ;;; write_resp (RespPage 200 page data).
 
 Definition redirect (ro : redirect_opts) : M unit :=
-  let redir0 := form_value f_redir in
-  let redir := if bcontains (bs "://") redir0 then [] else redir0 in
-  let path := if negb (bempty redir) && ro_follow ro then redir else ro_path ro in
+  let path := redirect_target (form_value f_redir) (ro_path ro) (ro_follow ro) in
   if c_api cfg then
     render ;;; write_resp (RespRedirectAPI 307 path (ro_failure ro))
   else
@@ -111,8 +124,6 @@ Definition ro_fail (p : bytes) := mkRO p false false true.
 Definition ro_follow_redir (p : bytes) := mkRO p true false false.
 
 (* ---- current user (context.go) --------------------------------------------- *)
-Section WithSess.
-Variable sess : amap.      (* session as the handler sees it (possibly hidden by expire) *)
 
 Definition current_user_id : M bytes :=
   h <- get_h ;;
@@ -241,19 +252,19 @@ Definition hooks (e : event) : list hook :=
   | _ => []
   end.
 
-Definition is_locked (u : user) : bool := now <? u_locked u.     (* lock.IsLocked *)
+(* the lock triple of a user record, seen through the pure machine of Model/Lock.v *)
+Definition lcfg_of : lcfg := mkLcfg (c_lock_after cfg) (c_lock_window cfg) (c_lock_duration cfg).
+Definition ltriple (u : user) : lstate := mkL (u_attempts u) (u_last u) (u_locked u).
+Definition set_ltriple (u : user) (s : lstate) : user :=
+  u <| u_attempts := l_count s |> <| u_last := l_last s |> <| u_locked := l_locked s |>.
+Definition lock_apply (u : user) (o : lop) : user := set_ltriple u (lstep lcfg_of (ltriple u) o).
+
+Definition is_locked (u : user) : bool := locked_at (ltriple u) now.     (* lock.IsLocked *)
 
 (* lock.updateLockedState (lock/lock.go:65) *)
 Definition update_locked_state (correct : bool) : M bool :=
   '(u, shared) <- current_user ;;
-  let attempts := u_attempts u + 1 in
-  let u1 :=
-    if correct then u
-    else if now - u_last u <=? c_lock_window cfg then
-      (if c_lock_after cfg <=? attempts then u <| u_locked := now + c_lock_duration cfg |> else u)
-        <| u_attempts := attempts |>
-    else u <| u_attempts := 1 |> in
-  let u2 := u1 <| u_last := now |> in
+  let u2 := lock_apply u (if correct then LOkBefore now else LFail now) in
   store_back u2 shared ;;;
   st_save u2 ;;;
   if negb (is_locked u2) then ret false
@@ -269,7 +280,7 @@ Definition run_hook (hk : hook) (rm : bool) (handled : bool) : M bool :=
   | HLockAfterFail => update_locked_state false
   | HLockAfterOk =>                                            (* lock.go:47 *)
       '(u, shared) <- current_user ;;
-      let u' := u <| u_attempts := 0 |> <| u_last := now |> in
+      let u' := lock_apply u (LOkAfter now) in
       store_back u' shared ;;; st_save u' ;;; ret false
   | HConfirmPrevent =>                                         (* confirm.go:81 *)
       '(u, _) <- current_user ;;
@@ -1086,7 +1097,9 @@ Definition oauth2_end (prov : bytes) : M unit :=
       if handled then ret tt else
       put_session k_uid (make_oauth2_pid prov (u_ouid u)) ;;; del_session k_halfauth ;;;
       let rm := beqb (aget k_rm params) v_true in
-      let redirect_to := match alookup (bs "redir") params with Some v => v | None => p_oauth_ok end in
+      let redirect_to := match alookup (bs "redir") params with
+                         | Some v => if is_local_redirect v then v else p_oauth_ok
+                         | None => p_oauth_ok end in
       let extra := filter (fun kv => negb (beqb (fst kv) k_rm) && negb (beqb (fst kv) (bs "redir"))) (sort_amap params) in
       handled <- fire EvAfterOAuth2 rm ;;
       if handled then ret tt else
@@ -1094,10 +1107,27 @@ Definition oauth2_end (prov : bytes) : M unit :=
       redirect (ro_ok (if bempty_map extra then redirect_to else redirect_to ++ "?"%byte :: q))
   end.
 
-End WithSess.
+(* the harness's probe: reports the current user id and which of a fixed list of session
+   keys it can read *)
+Definition probe_keys : list bytes :=
+  [k_uid; k_halfauth; k_last_action; k_twofactor; k_2fa_token; k_2fa_authed; k_oauth_state; k_oauth_params;
+   k_totp_secret; k_totp_pending; k_sms_number; k_sms_secret; k_sms_secret_number; k_sms_last; k_sms_pending;
+   bs "w1"; bs "w2"].
+Definition app_handler : M unit :=
+  pid <- current_user_id ;;
+  write_resp (RespPage 200 (bs "app") [(bs "pid", DStr pid); (bs "keys", DList (filter (fun k => ahas k sess) probe_keys))]).
+End H.
 
-Section WithSess0.
-Variable sess0 : amap.     (* session read at request start *)
+(* ---- request level: stacks, routing, error handler --------------------------------- *)
+Section H2.
+Variable E : env.            (* e_sess E = the session read at request start *)
+Notation C := (e_C E).
+Notation cfg := (e_cfg E).
+Notation O := (e_O E).
+Notation req := (e_req E).
+Notation cook := (e_cook E).
+Notation sess0 := (e_sess E).
+Notation now := (o_now O).
 
 (* ---- expire.Middleware (expire/expire.go:94) -------------------------------- *)
 (* returns the session view for everything downstream *)
@@ -1117,37 +1147,28 @@ Definition expire_mw : M amap :=
     else put_session k_last_action (zdec now) ;;; ret sess0
   else ret sess0.
 
-(* the harness's probe: reports the current user id and which of a fixed list of session
-   keys it can read *)
-Definition probe_keys : list bytes :=
-  [k_uid; k_halfauth; k_last_action; k_twofactor; k_2fa_token; k_2fa_authed; k_oauth_state; k_oauth_params;
-   k_totp_secret; k_totp_pending; k_sms_number; k_sms_secret; k_sms_secret_number; k_sms_last; k_sms_pending;
-   bs "w1"; bs "w2"].
-Definition app_handler (sess : amap) : M unit :=
-  pid <- current_user_id sess ;;
-  write_resp (RespPage 200 (bs "app") [(bs "pid", DStr pid); (bs "keys", DList (filter (fun k => ahas k sess) probe_keys))]).
-
 (* documented stack: LoadClientState -> [expire] -> [remember] -> Middleware2 -> [lock] -> [confirm] -> app *)
 Definition app_stack (full tf : bool) (fr : failresp) (lockmw confirmmw remembermw expiremw : bool) : M unit :=
   sess <- (if expiremw then expire_mw else ret sess0) ;;
-  (if remembermw then remember_mw sess else ret tt) ;;;
-  ok <- auth_middleware sess false full tf fr ;;
+  let E' := with_sess E sess in
+  (if remembermw then remember_mw E' else ret tt) ;;;
+  ok <- auth_middleware E' false full tf fr ;;
   if negb ok then ret tt else
-  ok <- (if lockmw then lock_mw sess else ret true) ;;
+  ok <- (if lockmw then lock_mw E' else ret true) ;;
   if negb ok then ret tt else
-  ok <- (if confirmmw then confirm_mw sess else ret true) ;;
+  ok <- (if confirmmw then confirm_mw E' else ret true) ;;
   if negb ok then ret tt else
-  app_handler sess.
+  app_handler E'.
 
 (* module routes behind MountedMiddleware2(ab, true, reqs, unauthed) *)
 Definition behind (full : bool) (h : M unit) : M unit :=
-  ok <- auth_middleware sess0 true full false (c_unauthed cfg) ;;
+  ok <- auth_middleware E true full false (c_unauthed cfg) ;;
   if ok then h else ret tt.
 Definition verified (k : tfkind) (h : M unit) : M unit :=
-  behind true (ok <- email_verify_wrap sess0 k ;; if ok then h else ret tt).
+  behind true (ok <- email_verify_wrap E k ;; if ok then h else ret tt).
 
 Definition totp_qr : M unit :=
-  '(u, _) <- current_user sess0 ;;
+  '(u, _) <- current_user E ;;
   let s := match alookup k_totp_secret sess0 with
            | Some s => if bempty s then u_totp u else s
            | None => u_totp u end in
@@ -1164,7 +1185,7 @@ Definition get_post (g p : M unit) : routed :=
   match q_meth req with GET => Handler g | POST => Handler p | _ => NotFound end.
 Definition when (b : bool) (r : routed) : routed := if b then r else NotFound.
 
-Definition resp0 (page : string) : M unit := respond (bs page) [].
+Definition resp0 (page : string) : M unit := respond E (bs page) [].
 
 Definition route_table : routed :=
   match q_route req with
@@ -1174,54 +1195,53 @@ Definition route_table : routed :=
   | PUT => MethodNotAllowed
   | _ =>
   match q_route req with
-  | RLogin => when (has_mod cfg MAuth) (get_post (login_get) (login_post sess0))
-  | ROtpLogin => when (has_mod cfg MOtp) (get_post (otp_login_get) (otp_login_post sess0))
+  | RLogin => when (has_mod cfg MAuth) (get_post (login_get E) (login_post E))
+  | ROtpLogin => when (has_mod cfg MOtp) (get_post (otp_login_get E) (otp_login_post E))
   | ROtpAdd => when (has_mod cfg MOtp)
-                 (get_post (behind false (otp_show sess0 (bs "otpadd"))) (behind false (otp_add_post sess0)))
+                 (get_post (behind false (otp_show E (bs "otpadd"))) (behind false (otp_add_post E)))
   | ROtpClear => when (has_mod cfg MOtp)
-                 (get_post (behind false (otp_show sess0 (bs "otpclear"))) (behind false (otp_clear_post sess0)))
-  | RRegister => when (has_mod cfg MRegister) (get_post (resp0 "register") (register_post sess0))
-  | RConfirm => when (has_mod cfg MConfirm) (on_method (c_mail_method cfg) (confirm_get))
-  | RRecoverStart => when (has_mod cfg MRecover) (get_post (resp0 "recover_start") (recover_start_post))
-  | RRecoverEnd => when (has_mod cfg MRecover) (get_post (recover_end_get) (recover_end_post sess0))
-  | ROAuthStart p => when (has_mod cfg MOAuth2 && bmem p (c_providers cfg)) (on_method GET (oauth2_start p))
-  | ROAuthCallback p => when (has_mod cfg MOAuth2 && bmem p (c_providers cfg)) (on_method GET (oauth2_end sess0 p))
-  | RLogout => when (has_mod cfg MLogout) (on_method (c_logout_method cfg) (logout sess0))
-  | RTotpSetup => when (c_totp cfg) (get_post (verified KTotp (totp_setup_get)) (verified KTotp (totp_setup_post sess0)))
+                 (get_post (behind false (otp_show E (bs "otpclear"))) (behind false (otp_clear_post E)))
+  | RRegister => when (has_mod cfg MRegister) (get_post (resp0 "register") (register_post E))
+  | RConfirm => when (has_mod cfg MConfirm) (on_method (c_mail_method cfg) (confirm_get E))
+  | RRecoverStart => when (has_mod cfg MRecover) (get_post (resp0 "recover_start") (recover_start_post E))
+  | RRecoverEnd => when (has_mod cfg MRecover) (get_post (recover_end_get E) (recover_end_post E))
+  | ROAuthStart p => when (has_mod cfg MOAuth2 && bmem p (c_providers cfg)) (on_method GET (oauth2_start E p))
+  | ROAuthCallback p => when (has_mod cfg MOAuth2 && bmem p (c_providers cfg)) (on_method GET (oauth2_end E p))
+  | RLogout => when (has_mod cfg MLogout) (on_method (c_logout_method cfg) (logout E))
+  | RTotpSetup => when (c_totp cfg) (get_post (verified KTotp (totp_setup_get E)) (verified KTotp (totp_setup_post E)))
   | RTotpQR => when (c_totp cfg) (on_method GET (verified KTotp totp_qr))
-  | RTotpConfirm => when (c_totp cfg) (get_post (verified KTotp (totp_confirm_get sess0)) (verified KTotp (totp_confirm_post sess0)))
-  | RTotpRemove => when (c_totp cfg) (get_post (behind true (resp0 "totp2fa_remove")) (behind true (totp_remove_post sess0)))
-  | RTotpValidate => when (c_totp cfg) (get_post (resp0 "totp2fa_validate") (totp_validate_post sess0))
-  | RSmsSetup => when (c_sms cfg) (get_post (verified KSms (sms_setup_get sess0)) (verified KSms (sms_setup_post sess0)))
-  | RSmsConfirm => when (c_sms cfg) (get_post (verified KSms (resp0 "sms2fa_confirm")) (verified KSms (sms_validator_post sess0 SPConfirm)))
-  | RSmsRemove => when (c_sms cfg) (get_post (behind true (resp0 "sms2fa_remove")) (behind true (sms_validator_post sess0 SPRemove)))
-  | RSmsValidate => when (c_sms cfg) (get_post (resp0 "sms2fa_validate") (sms_validator_post sess0 SPValidate))
+  | RTotpConfirm => when (c_totp cfg) (get_post (verified KTotp (totp_confirm_get E)) (verified KTotp (totp_confirm_post E)))
+  | RTotpRemove => when (c_totp cfg) (get_post (behind true (resp0 "totp2fa_remove")) (behind true (totp_remove_post E)))
+  | RTotpValidate => when (c_totp cfg) (get_post (resp0 "totp2fa_validate") (totp_validate_post E))
+  | RSmsSetup => when (c_sms cfg) (get_post (verified KSms (sms_setup_get E)) (verified KSms (sms_setup_post E)))
+  | RSmsConfirm => when (c_sms cfg) (get_post (verified KSms (resp0 "sms2fa_confirm")) (verified KSms (sms_validator_post E SPConfirm)))
+  | RSmsRemove => when (c_sms cfg) (get_post (behind true (resp0 "sms2fa_remove")) (behind true (sms_validator_post E SPRemove)))
+  | RSmsValidate => when (c_sms cfg) (get_post (resp0 "sms2fa_validate") (sms_validator_post E SPValidate))
   | REmailVerify k => when (c_email_auth cfg && match k with KTotp => c_totp cfg | KSms => c_sms cfg end)
-                        (get_post (behind true (email_verify_get sess0 k)) (behind true (email_verify_post sess0 k)))
+                        (get_post (behind true (email_verify_get E k)) (behind true (email_verify_post E k)))
   | REmailVerifyEnd k => when (c_email_auth cfg && match k with KTotp => c_totp cfg | KSms => c_sms cfg end)
-                        (on_method (c_mail_method cfg) (behind true (email_verify_end sess0 k)))
-  | RRecoveryRegen => when (c_recovery cfg) (get_post (behind true (recovery_regen_get sess0)) (behind true (recovery_regen_post sess0)))
+                        (on_method (c_mail_method cfg) (behind true (email_verify_end E k)))
+  | RRecoveryRegen => when (c_recovery cfg) (get_post (behind true (recovery_regen_get E)) (behind true (recovery_regen_post E)))
   | RApp _ _ _ _ _ _ _ => NotFound
   | RUnknown => NotFound
   end end end.
 
 (* defaults.ErrorHandler (silent) or one that also writes a 500 *)
-Definition with_error_handler (h : M unit) : hst -> res unit * hst :=
-  fun s0 =>
-    match h s0 with
-    | (Err e, s1) =>
-        let '(_, s2) := log [q_path req; q_rawquery req] s1 in
-        if c_err_writes cfg then
-          let '(_, s3) := write_resp (RespStatus 500) s2 in (Err e, s3)
-        else (Err e, s2)
-    | r => r
-    end.
+Definition with_error_handler (h : M unit) : M unit :=
+  try h (fun r =>
+    match r with
+    | Err e =>
+        log [q_path req; q_rawquery req] ;;;
+        (if c_err_writes cfg then write_resp (RespStatus 500) else ret tt) ;;;
+        fail e
+    | Ok a => ret a
+    | Panic => panic
+    end).
 
-Definition serve : hst -> res unit * hst :=
+Definition serve : M unit :=
   match route_table with
   | Handler h => with_error_handler h
   | NotFound => write_resp (RespStatus 404)
   | MethodNotAllowed => write_resp (RespStatus 405)
   end.
-End WithSess0.
-End H.
+End H2.
